@@ -2,6 +2,7 @@ package c19
 
 import (
 	"bytes"
+	"context"
 	"encoding/json"
 	"fmt"
 	"io"
@@ -12,6 +13,7 @@ import (
 	"strconv"
 	"strings"
 	"testing"
+	"time"
 
 	"github.com/itchyny/gojq"
 	"pgregory.net/rapid"
@@ -105,14 +107,19 @@ func childMain(path string) int {
 		return 3
 	}
 	out := batchOut{Outs: make([]string, len(bf.Cases))}
+	stdin := &stdinIter{json.NewDecoder(os.Stdin)}
+	progress, _ := os.Create(os.Getenv("C19_CHILD_OUT") + ".progress")
 	for i, c := range bf.Cases {
 		var opts []gojq.CompilerOption
 		if bf.Mode == "control" {
 			opts = []gojq.CompilerOption{
 				gojq.WithEnvironLoader(os.Environ),
 				gojq.WithModuleLoader(gojq.NewModuleLoader([]string{"~/.jq", "."})),
-				gojq.WithInputIter(&stdinIter{json.NewDecoder(os.Stdin)}),
+				gojq.WithInputIter(stdin),
 			}
+		}
+		if progress != nil {
+			progress.WriteAt([]byte(fmt.Sprintf("%08d", i)), 0)
 		}
 		out.Outs[i] = render(c.Query, c.Input.X, opts...)
 	}
@@ -212,7 +219,10 @@ func (w *ambWorld) spawn(am ambient, bf batchFile) ([]string, error) {
 	if err != nil {
 		exe = os.Args[0]
 	}
-	cmd := exec.Command(exe, append([]string{"-test.run", "^$"}, am.args...)...)
+	ctx, cancel := context.WithTimeout(context.Background(), 60*time.Second)
+	defer cancel()
+	defer os.Remove(out + ".progress")
+	cmd := exec.CommandContext(ctx, exe, append([]string{"-test.run", "^$"}, am.args...)...)
 	cmd.Env = append(append([]string{}, am.env...), "C19_CHILD="+in, "C19_CHILD_OUT="+out)
 	cmd.Dir = am.dir
 	cmd.Stdin = strings.NewReader(am.stdin)
@@ -220,7 +230,13 @@ func (w *ambWorld) spawn(am ambient, bf batchFile) ([]string, error) {
 	cmd.Stderr = &stderr
 	cmd.Stdout = &stderr
 	if err := cmd.Run(); err != nil {
-		return nil, fmt.Errorf("child %s: %v: %s", am.name, err, tail(stderr.String(), 2000))
+		at := ""
+		if pb, e := os.ReadFile(out + ".progress"); e == nil {
+			if i, e := strconv.Atoi(strings.TrimSpace(string(pb))); e == nil && i < len(bf.Cases) {
+				at = fmt.Sprintf(" while running case %d: %q on %s", i, bf.Cases[i].Query, univ.Show(bf.Cases[i].Input.X))
+			}
+		}
+		return nil, fmt.Errorf("child %s: %v%s: %s", am.name, err, at, tail(stderr.String(), 2000))
 	}
 	ob, err := os.ReadFile(out)
 	if err != nil {
